@@ -2,6 +2,7 @@ package rules
 
 import (
 	"fmt"
+	"strings"
 	"go/token"
 	"go/types"
 
@@ -555,4 +556,301 @@ func R71() Rule {
 			}
 		}
 	}}
+}
+
+// ---------------------------------------------------------------------------
+// R81: a chunk buffer that has been sent is emptied before the scan goes on.
+//
+// C03 / C18: "each stored row … exactly once", "rows in strictly ascending key
+// order without duplicates".  ReadRows accumulates chunks in a buffer and sends
+// the buffer from inside the scan callback (when it is full, or — in the upstream
+// feature that two independent agents ported — as a progress heartbeat).  Every
+// send of the buffer made by the callback must be followed, on every path on which
+// the callback lets the scan continue, by the buffer's reset; otherwise the rows
+// already sent are sent again with the next batch (duplicates, keys going
+// backwards).  The send after the scan is over needs no reset.
+// ---------------------------------------------------------------------------
+
+func R81() Rule {
+	return Rule{Name: "R81", Run: func(c *core.Ctx) {
+		P := c.P
+		if P.SPkgs[core.PkgBttest] == nil {
+			return
+		}
+		root := P.MustFunc(core.PkgBttest, rpcReadRows)
+		c.Fn(rpcReadRows)
+		scope := P.Scope(root, func(f *ssa.Function) bool { return core.PkgPathOf(f) != core.PkgBttest })
+		within := setOf(scope)
+		// the buffer: the location whose value is placed into the Chunks field of a sent ReadRowsResponse
+		bufLoc := ""
+		var sends []ssa.Instruction
+		for _, f := range scope {
+			for _, ci := range core.AllCalls(f) {
+				if !isServerStreamSend(ci) {
+					continue
+				}
+				args := ci.Args()
+				if len(args) == 0 {
+					continue
+				}
+				msg := core.Resolve(args[len(args)-1])
+				for _, ref := range core.Referrers(msg) {
+					fa, ok := ref.(*ssa.FieldAddr)
+					if !ok {
+						continue
+					}
+					if _, fname, _ := core.FieldName(fa); fname != "Chunks" {
+						continue
+					}
+					for _, r2 := range core.Referrers(fa) {
+						if st, ok := r2.(*ssa.Store); ok && st.Addr == ssa.Value(fa) {
+							// the buffer itself, or — when the sender is a helper that is handed the chunks — what
+							// every caller passes
+							loc := ""
+							flowsFrom(P, st.Val, func(v ssa.Value) bool {
+								if l := loadedLocation(v); l != "" && strings.HasPrefix(l, "field:") {
+									loc = l
+									return true
+								}
+								return false
+							}, map[ssa.Value]bool{}, 0)
+							if loc == "" {
+								loc = loadedLocation(st.Val)
+							}
+							if loc != "" {
+								bufLoc = loc
+								sends = append(sends, ci.Instr)
+							}
+						}
+					}
+				}
+			}
+		}
+		if bufLoc == "" {
+			c.Ok("R81", "ReadRows/chunk-buffer-not-identified", root.Pos(), false, "the chunks sent by ReadRows are not kept in a variable or field this rule can identify (not decided)")
+			return
+		}
+		// resets: stores of an empty value into the buffer location
+		var resets []ssa.Instruction
+		for _, f := range scope {
+			for _, b := range f.Blocks {
+				for _, in := range b.Instrs {
+					st, ok := in.(*ssa.Store)
+					if !ok || locationOf(st.Addr) != bufLoc {
+						continue
+					}
+					v := core.Strip(st.Val)
+					if core.IsNilConst(v) {
+						resets = append(resets, st)
+						continue
+					}
+					if sl, ok := v.(*ssa.Slice); ok && sl.High != nil {
+						if hi, isC := core.ConstInt(sl.High); isC && hi == 0 {
+							resets = append(resets, st)
+						}
+					}
+				}
+			}
+		}
+		// the scan callbacks
+		var cbs []*ssa.Function
+		seenCb := map[*ssa.Function]bool{}
+		for _, ci := range core.CallsIn(scope, func(ci *core.CallInfo) bool {
+			return isRowsMethod(ci, "Ascend", "AscendRange", "AscendLessThan", "AscendGreaterOrEqual")
+		}) {
+			for _, a := range ci.Common.Args {
+				if _, isFn := a.Type().Underlying().(*types.Signature); !isFn {
+					continue
+				}
+				cands := []ssa.Value{a}
+				if closureOf(a) == nil {
+					cands = P.Origins(a, within)
+				}
+				for _, o := range cands {
+					if cb := closureOf(o); cb != nil && cb.Blocks != nil && !seenCb[cb] {
+						seenCb[cb] = true
+						cbs = append(cbs, cb)
+					}
+				}
+			}
+		}
+		// unresetAfter: starting just after site s of fn (through which `send` is executed), can control reach
+		// a return that lets the caller go on — a continuing return of the callback, a non-failing return of a
+		// helper — without passing a reset of the buffer?  A helper that sends and resets (`flush()`) is judged
+		// inside first.
+		var unresetAfter func(fn *ssa.Function, s ssa.Instruction, send ssa.Instruction, isCb bool, depth int) *ssa.Return
+		unresetAfter = func(fn *ssa.Function, s ssa.Instruction, send ssa.Instruction, isCb bool, depth int) *ssa.Return {
+			if depth > 4 {
+				return nil
+			}
+			if s != send {
+				// the send happens inside a callee: is the buffer reset there on every path back?
+				var callee *ssa.Function
+				if ci := core.Call(s); ci != nil {
+					if ci.Static != nil {
+						callee = ci.Static
+					} else if !ci.Common.IsInvoke() {
+						callee = closureOf(ci.Common.Value)
+					}
+				}
+				if callee != nil && callee.Blocks != nil {
+					handled := true
+					for _, inner := range sitesThrough(callee, send, false, map[*ssa.Function]bool{}, 0) {
+						if unresetAfter(callee, inner, send, false, depth+1) != nil {
+							handled = false
+						}
+					}
+					if handled {
+						return nil
+					}
+				}
+			}
+			isReset := map[ssa.Instruction]bool{}
+			for _, r := range resets {
+				for _, x := range sitesThrough(fn, r, true, map[*ssa.Function]bool{}, 0) {
+					if x != s {
+						isReset[x] = true
+					}
+				}
+			}
+			seen := map[*ssa.BasicBlock]bool{}
+			type item struct {
+				b    *ssa.BasicBlock
+				from int
+			}
+			idx := 0
+			for i, in := range s.Block().Instrs {
+				if in == s {
+					idx = i + 1
+				}
+			}
+			stack := []item{{s.Block(), idx}}
+			for len(stack) > 0 {
+				it := stack[len(stack)-1]
+				stack = stack[:len(stack)-1]
+				if it.from == 0 {
+					if seen[it.b] {
+						continue
+					}
+					seen[it.b] = true
+				}
+				stopped := false
+				for _, in := range it.b.Instrs[it.from:] {
+					if isReset[in] {
+						stopped = true
+						break
+					}
+					if ret, ok := in.(*ssa.Return); ok {
+						if isCb {
+							if len(ret.Results) > 0 {
+								if v, isC := core.ConstBool(ret.Results[0]); !(isC && !v) {
+									return ret
+								}
+							}
+						} else if !certainlyFails(ret) {
+							return ret
+						}
+						stopped = true
+						break
+					}
+				}
+				if stopped {
+					continue
+				}
+				for _, su := range it.b.Succs {
+					stack = append(stack, item{su, 0})
+				}
+			}
+			return nil
+		}
+		n := 0
+		for _, cb := range cbs {
+			for _, send := range sends {
+				for _, s := range sitesThrough(cb, send, false, map[*ssa.Function]bool{}, 0) {
+					n++
+					construct := fmt.Sprintf("ReadRows/scan-callback/send#%d/buffer-emptied-before-the-scan-continues", n)
+					if bad := unresetAfter(cb, s, send, true, 0); bad != nil {
+						c.Bad("R81", construct, s.Pos(), "the scan callback sends the chunk buffer here and can then let the scan continue (return at %s) without having emptied the buffer: the rows already sent are sent again with the next batch — duplicates, and keys that go backwards", P.Pos(bad.Pos()))
+					} else {
+						c.Ok("R81", construct, s.Pos(), true, "every continuing path after this send of the chunk buffer passes its reset")
+					}
+				}
+			}
+		}
+		if n == 0 {
+			c.Ok("R81", "ReadRows/scan-callback/no-send", root.Pos(), false, "the scan callback never sends the chunk buffer itself")
+		}
+	}}
+}
+
+// sitesThrough lists the instructions of fn through which target is executed: target itself when it
+// belongs to fn, otherwise the calls in fn — static calls of repository functions and calls of
+// function values that resolve to a closure (`sendResponse()`) — that (transitively) lead to it.
+// With must, a callee only counts when target is certain to run in it (judged on its non-failing returns).
+func sitesThrough(fn *ssa.Function, target ssa.Instruction, must bool, visiting map[*ssa.Function]bool, depth int) []ssa.Instruction {
+	if target.Parent() == fn {
+		return []ssa.Instruction{target}
+	}
+	if depth > 5 || visiting[fn] || fn.Blocks == nil {
+		return nil
+	}
+	visiting[fn] = true
+	defer delete(visiting, fn)
+	var out []ssa.Instruction
+	for _, ci := range core.AllCalls(fn) {
+		if _, isGo := ci.Instr.(*ssa.Go); isGo {
+			continue
+		}
+		var callee *ssa.Function
+		if ci.Static != nil {
+			callee = ci.Static
+		} else if !ci.Common.IsInvoke() {
+			callee = closureOf(ci.Common.Value)
+		}
+		if callee == nil || callee.Blocks == nil {
+			continue
+		}
+		inner := sitesThrough(callee, target, must, visiting, depth+1)
+		if len(inner) == 0 {
+			continue
+		}
+		if must {
+			ok := false
+			for _, x := range inner {
+				if certainToRun(x) {
+					ok = true
+				}
+			}
+			if !ok {
+				continue
+			}
+		}
+		out = append(out, ci.Instr)
+	}
+	return out
+}
+
+// certainlyFails: the return's error result is a freshly built error (fmt.Errorf, errors.New, a gRPC
+// status, the repository's coded errors) — as opposed to nil or to the result of a call that may be nil.
+func certainlyFails(ret *ssa.Return) bool {
+	if len(ret.Results) == 0 {
+		return false
+	}
+	last := ret.Results[len(ret.Results)-1]
+	if !isErrorType(last.Type()) {
+		return false
+	}
+	call, ok := core.Resolve(last).(*ssa.Call)
+	if !ok {
+		return false
+	}
+	sc := call.Call.StaticCallee()
+	if sc == nil || sc.Pkg == nil {
+		return false
+	}
+	switch sc.Pkg.Pkg.Path() + "." + sc.Name() {
+	case "fmt.Errorf", "errors.New", "google.golang.org/grpc/status.Errorf", "google.golang.org/grpc/status.Error":
+		return true
+	}
+	return false
 }
